@@ -260,6 +260,31 @@ pub fn run_c16(a: &Args) {
             // 380 times among 2^10 / 2^20 graphs with probability far below 1e-100
             ctx::violation(&format!("C16|fast_gnp_random_graph|unseeded-draws-not-independent|{}", kind), "400 unseeded draws did not behave like independent G(n,p) samples", json!({"pairs_seen": seen.len(), "possible_pairs": possible, "distinct_graphs": distinct.len()}));
         }
+        // the first unseeded call of each of 24 fresh threads: independent draws as well
+        let firsts: Vec<Vec<(i32, i32)>> = std::thread::scope(|s| {
+            let hs: Vec<_> = (0..24).map(|_| s.spawn(move || random::fast_gnp_random_graph(6, 0.5, directed, None).ok().map(|g| structure(&g, 6, directed).map(|set| set.into_iter().collect::<Vec<_>>()).unwrap_or_default()).unwrap_or_default())).collect();
+            hs.into_iter().map(|h| h.join().unwrap_or_default()).collect()
+        });
+        ctx::eval(24);
+        let distinct_firsts: BTreeSet<Vec<(i32, i32)>> = firsts.into_iter().collect();
+        if distinct_firsts.len() < 12 {
+            // 24 independent draws among 2^15 / 2^30 graphs: fewer than 12 distinct has probability below 1e-30
+            ctx::violation(&format!("C16|fast_gnp_random_graph|unseeded-draws-not-independent-across-threads|{}", kind), "the first unseeded draws of 24 fresh threads were not independent G(n,p) samples", json!({"distinct_graphs": distinct_firsts.len(), "threads": 24}));
+        }
+        // an unseeded call that follows a seeded one (same seed every time) is still a fresh draw
+        let mut after_seeded: BTreeSet<Vec<(i32, i32)>> = BTreeSet::new();
+        for _ in 0..24 {
+            let _ = random::fast_gnp_random_graph(6, 0.5, directed, Some(12345));
+            if let Ok(g) = random::fast_gnp_random_graph(6, 0.5, directed, None) {
+                if let Ok(set) = structure(&g, 6, directed) {
+                    after_seeded.insert(set.into_iter().collect());
+                }
+            }
+        }
+        ctx::eval(24);
+        if after_seeded.len() < 12 {
+            ctx::violation(&format!("C16|fast_gnp_random_graph|unseeded-draw-after-seeded-call-not-fresh|{}", kind), "unseeded draws made right after a seeded call (same seed each time) repeat", json!({"distinct_graphs": after_seeded.len(), "rounds": 24}));
+        }
         ctx::count("gnp:unseeded-draws-checked");
         ctx::nontrivial(mix(this, 0x4e0));
     }
@@ -455,7 +480,7 @@ fn canon_levels(levels: &[Vec<HashSet<String>>]) -> String {
     format!("{:?}", v)
 }
 
-fn tie_rich_case(rng: &mut Rng, idx: u64) -> GCase {
+pub fn tie_rich_case(rng: &mut Rng, idx: u64) -> GCase {
     let kinds = kinds8();
     let fams: &[&'static str] = &["path", "cycle", "complete", "bipartite", "grid", "ladder", "star", "barbell"];
     let specs = *rng.pick(&kinds);
@@ -548,9 +573,10 @@ fn c17_results(case_kind: u64, rng: &mut Rng, idx: u64) -> Vec<(&'static str, St
                 weighted = true;
                 ctx::count("reach:louvain-on-multigraph-with-three-inexact-parallel-edges-per-pair");
             }
-            let desc = json!({"graph": case.json(), "weighted": weighted, "resolution": gamma, "seed": seed.to_string()});
+            let desc = json!({"graph": case.json(), "weighted": weighted, "resolution": gamma, "threshold": threshold, "seed": seed.to_string()});
+            ctx::case_desc(desc.clone()); // announced before the calls: a call that never returns is then attributable
             let g = case.build();
-            graphrs::verif_hooks::set_budget("louvain_sweep", Some(200 + 20 * case.n() as u64));
+            crate::ctx::set_budget("louvain_sweep", Some(200 + 20 * case.n() as u64));
             graphrs::verif_hooks::take_ticks("louvain_sweep");
             let r = guard("louvain_partitions", || louvain::louvain_partitions(&g, weighted, Some(gamma), threshold, Some(seed)));
             let canon = match r {
@@ -608,7 +634,7 @@ fn c17_results(case_kind: u64, rng: &mut Rng, idx: u64) -> Vec<(&'static str, St
                 };
                 out.push((tag, canon3, desc.clone()));
             }
-            graphrs::verif_hooks::set_budget("louvain_sweep", None);
+            crate::ctx::set_budget("louvain_sweep", None);
             ctx::count("reach:louvain-on-tie-rich-graph");
         }
         _ => {
@@ -682,6 +708,23 @@ fn c17_results(case_kind: u64, rng: &mut Rng, idx: u64) -> Vec<(&'static str, St
                 }
             }
             add("bfs_equal_size_partitions", format!("{:?}", guard("bfs_equal_size_partitions", || components::bfs_equal_size_partitions(&g, 3)).ok()));
+            // coefficients, to six significant digits (the statement allows rounding of sums,
+            // not different values)
+            let digits = |m: std::collections::HashMap<String, f64>| format!("{:?}", m.into_iter().map(|(k, v)| (k, format!("{:.5e}", v))).collect::<BTreeMap<_, _>>());
+            if !g.specs.multi_edges {
+                if let Ok(m) = guard("square_clustering", || cluster::square_clustering(&g, None)) {
+                    add("square_clustering", digits(m));
+                }
+                if let Ok(Ok(m)) = guard("clustering", || cluster::clustering(&g, weighted && g.edges_have_weight(), None)) {
+                    add("clustering", digits(m));
+                }
+            }
+            if let Ok(Ok(m)) = guard("closeness_centrality", || graphrs::algorithms::centrality::closeness::closeness_centrality(&g, weighted && g.edges_have_weight(), true)) {
+                add("closeness_centrality", digits(m));
+            }
+            if let Ok(Ok(m)) = guard("betweenness_centrality", || graphrs::algorithms::centrality::betweenness::betweenness_centrality(&g, weighted && g.edges_have_weight(), true)) {
+                add("betweenness_centrality", digits(m));
+            }
         }
     }
     out
@@ -772,10 +815,10 @@ pub fn run_c17(a: &Args) {
             let mut first: Option<String> = None;
             for rep in 0..4 {
                 let g = case.build();
-                graphrs::verif_hooks::set_budget("louvain_sweep", Some(400));
+                crate::ctx::set_budget("louvain_sweep", Some(400));
                 graphrs::verif_hooks::take_ticks("louvain_sweep");
                 let res = guard("louvain_partitions", || louvain::louvain_partitions(&g, true, Some(gamma), threshold, Some(seed)));
-                graphrs::verif_hooks::set_budget("louvain_sweep", None);
+                crate::ctx::set_budget("louvain_sweep", None);
                 ctx::eval(1);
                 let canon = match res {
                     Ok(Ok(l)) => canon_levels(&l),
